@@ -17,6 +17,8 @@ pub struct Limits {
     /// per-endpoint overrides of the connection-id provider (0 = inherit the global setting);
     /// rotate_handshake_cid: 1 = off, 2 = on
     pub cid_lifetime_ms: u64,
+    /// lifetime of every second connection id this endpoint generates (0 = all ids get `cid_lifetime_ms`)
+    pub cid_lifetime_alt_ms: u64,
     pub cid_len: u64,
     pub rotate_handshake_cid: u64,
 }
@@ -37,6 +39,7 @@ impl Default for Limits {
             send_buffer: 0,
             active_cid_limit: 0,
             cid_lifetime_ms: 0,
+            cid_lifetime_alt_ms: 0,
             cid_len: 0,
             rotate_handshake_cid: 0,
         }
@@ -244,6 +247,7 @@ fn lim(l: &mut Limits, k: &str, v: u64) -> bool {
         "send_buffer" => l.send_buffer = v,
         "active_cid_limit" => l.active_cid_limit = v,
         "cid_lifetime_ms" => l.cid_lifetime_ms = v,
+        "cid_lifetime_alt_ms" => l.cid_lifetime_alt_ms = v,
         "cid_len" => l.cid_len = v,
         "rotate_handshake_cid" => l.rotate_handshake_cid = v,
         _ => return false,
